@@ -487,6 +487,7 @@ main:
 
 	dequeue:
 		for {
+			verifhook.At("relay.uplink.beforePack", s, uplink.csid)
 			destAddrPort, packetStart, packetLength, err = uplink.natConnPacker.PackInPlace(ctx, queuedPacket.buf, queuedPacket.targetAddr, queuedPacket.start, queuedPacket.length)
 			if err != nil {
 				uplink.logger.Warn("Failed to pack packet for natConn",
